@@ -86,6 +86,14 @@ type Case struct {
 	FaultIndex   int    `json:"fault_index,omitempty"`
 	FaultVariant int    `json:"fault_variant,omitempty"`
 
+	// Layouts: the textual form of the inline data: values (layout.go), keyed by flag ("cacert-file/<entry>"
+	// for the entries of --cacert-file); absent = on one line. FileQuoting: how a multi-line value is written
+	// in the config file: "" = string literal with escapes | "block" (YAML literal block scalar, TOML
+	// multi-line basic string; JSON has escapes only). KeyAlg: "" = Ed25519 | "rsa4096" (long payloads)
+	Layouts     map[string]string `json:"layouts,omitempty"`
+	FileQuoting string            `json:"file_quoting,omitempty"`
+	KeyAlg      string            `json:"key_alg,omitempty"`
+
 	Secrets [2]SecretSet `json:"secrets"`
 }
 
@@ -209,6 +217,7 @@ func genConfig(r *core.Rand, i int) *Case {
 		c.ProxyScheme = true
 	}
 	c.Stall = r.Chance(20)
+	genLayouts(r, c)
 	return c
 }
 
@@ -275,7 +284,8 @@ type secretItem struct {
 	Flag    string // the flag that carries it
 	Index   int    // entry index for slice flags
 	User    string // user name it belongs to ("" for data payloads)
-	Secret  string // the password, or the base64 payload of a data: URI
+	Secret  string // the password, or the base64 payload of a data: URI (on one line, standard alphabet)
+	Laid    string // data: values: the payload as it is written in the value (layout.go)
 	PEM     []byte // decoded payload for data: values
 	Private bool   // payload is private key material
 }
@@ -323,19 +333,29 @@ func rawUser(u UserPub, pw string) string {
 	return u.User
 }
 
-func fileValue(style, name string, content []byte, dir string, files map[string][]byte) (raw string, payload string) {
+func fileValue(style, layout, name string, content []byte, dir string, files map[string][]byte) (raw string, payload string) {
 	switch style {
 	case "path":
 		files[name] = content
 		return dir + "/" + name, ""
-	case "data":
+	case "data", "data-base64":
 		p := base64.StdEncoding.EncodeToString(content)
-		return "data:" + p, p
-	case "data-base64":
-		p := base64.StdEncoding.EncodeToString(content)
-		return "data:base64," + p, p
+		return inlineValue(style, layout, p), p
 	}
 	return "", ""
+}
+
+// laidPayload is what follows the "data:[base64,]" prefix of an inline value.
+func laidPayload(raw string) string {
+	if i := strings.Index(raw, "data:"); i >= 0 {
+		raw = raw[i+5:]
+	} else if len(raw) > 5 {
+		raw = raw[5:] // DATA: / Data:
+	}
+	if i := strings.IndexByte(raw, ','); i >= 0 && i < 40 {
+		raw = raw[i+1:]
+	}
+	return raw
 }
 
 func csvField(s string) string {
@@ -467,19 +487,19 @@ func assemble(c *Case, k int, ep endpoints, dir, paddr, aaddr string) *plan {
 		if style == "none" {
 			return
 		}
-		raw, payload := fileValue(style, name, content, dir, p.Files)
+		raw, payload := fileValue(style, c.layoutOf(flag, 0), name, content, dir, p.Files)
 		add(flag, false, raw)
 		if payload != "" {
-			p.Secrets = append(p.Secrets, secretItem{Flag: flag, Secret: payload, PEM: content, Private: private})
+			p.Secrets = append(p.Secrets, secretItem{Flag: flag, Secret: payload, Laid: laidPayload(raw), PEM: content, Private: private})
 		}
 	}
 	if c.TLSCert != "none" {
-		cert, key := faultyPair(c, "tls", s.TLSSeed, false)
+		cert, key := faultyPair(c, k, "tls", s.TLSSeed, false)
 		fileFlag("tls-cert-file", c.TLSCert, "tls-cert.pem", cert, false)
 		fileFlag("tls-key-file", c.TLSKey, "tls-key.pem", key, true)
 	}
 	if c.MITM != "none" {
-		cert, key := faultyPair(c, "mitm", s.MITMSeed, true)
+		cert, key := faultyPair(c, k, "mitm", s.MITMSeed, true)
 		fileFlag("mitm-cacert-file", c.MITM, "mitm-cacert.pem", cert, false)
 		fileFlag("mitm-cakey-file", c.MITM, "mitm-cakey.pem", key, true)
 	}
@@ -493,10 +513,10 @@ func assemble(c *Case, k int, ep endpoints, dir, paddr, aaddr string) *plan {
 				private = c.FaultVariant%5 == 2
 				cert = notPEM(cert, key, c.FaultVariant, s.CASeeds[i])
 			}
-			raw, payload := fileValue(st, fmt.Sprintf("ca-%d.pem", i), cert, dir, p.Files)
+			raw, payload := fileValue(st, c.layoutOf("cacert-file", i), fmt.Sprintf("ca-%d.pem", i), cert, dir, p.Files)
 			raws = append(raws, raw)
 			if payload != "" {
-				p.Secrets = append(p.Secrets, secretItem{Flag: "cacert-file", Index: i, Secret: payload, PEM: cert, Private: private})
+				p.Secrets = append(p.Secrets, secretItem{Flag: "cacert-file", Index: i, Secret: payload, Laid: laidPayload(raw), PEM: cert, Private: private})
 			}
 		}
 		add("cacert-file", true, raws...)
@@ -559,7 +579,7 @@ func assemble(c *Case, k int, ep endpoints, dir, paddr, aaddr string) *plan {
 	}
 	if len(fileVals) > 0 {
 		name := "config." + c.ConfigFmt
-		p.Files[name] = renderConfig(c.ConfigFmt, fileVals)
+		p.Files[name] = renderConfig(c.ConfigFmt, c.FileQuoting, fileVals)
 		p.Args = append(p.Args, "--config-file", dir+"/"+name)
 	}
 	return p
@@ -567,7 +587,10 @@ func assemble(c *Case, k int, ep endpoints, dir, paddr, aaddr string) *plan {
 
 // renderConfig writes the config file. String literals are JSON string literals, which YAML
 // (double-quoted flow scalars) and TOML (basic strings) read the same way.
-func renderConfig(format string, vals map[string]any) []byte {
+//
+// quoting "block": a multi-line value that can be held verbatim (blockable) is written the way such
+// values are pasted into a file: a YAML literal block scalar, a TOML multi-line basic string.
+func renderConfig(format, quoting string, vals map[string]any) []byte {
 	if format == "json" {
 		b, _ := json.MarshalIndent(vals, "", "  ")
 		return b
@@ -577,13 +600,53 @@ func renderConfig(format string, vals map[string]any) []byte {
 		enc := json.NewEncoder(&b)
 		enc.SetEscapeHTML(false)
 		enc.Encode(v)
-		return strings.TrimSpace(b.String())
+		// (DEL is the one control character encoding/json leaves as it is; TOML wants it escaped)
+		return strings.ReplaceAll(strings.TrimSpace(b.String()), "\x7f", `\u007f`)
 	}
 	var b strings.Builder
 	for _, k := range sortedKeys(vals) {
 		sep := ": "
 		if format == "toml" {
 			sep = " = "
+		}
+		if quoting == "block" {
+			if v, ok := vals[k].(string); ok && blockable(v) {
+				if format == "toml" {
+					b.WriteString(k + sep + tomlBlock(v) + "\n")
+				} else {
+					b.WriteString(k + ": " + yamlBlock(v, "  "))
+				}
+				continue
+			}
+			if vs, ok := vals[k].([]string); ok {
+				any := false
+				for _, v := range vs {
+					any = any || blockable(v)
+				}
+				if any {
+					if format == "toml" {
+						b.WriteString(k + " = [\n")
+					} else {
+						b.WriteString(k + ":\n")
+					}
+					for _, v := range vs {
+						switch {
+						case format == "toml" && blockable(v):
+							b.WriteString("  " + tomlBlock(v) + ",\n")
+						case format == "toml":
+							b.WriteString("  " + lit(v) + ",\n")
+						case blockable(v):
+							b.WriteString("  - " + yamlBlock(v, "    "))
+						default:
+							b.WriteString("  - " + lit(v) + "\n")
+						}
+					}
+					if format == "toml" {
+						b.WriteString("]\n")
+					}
+					continue
+				}
+			}
 		}
 		b.WriteString(k + sep + lit(vals[k]) + "\n")
 	}
